@@ -39,9 +39,15 @@ type c17Inner struct {
 	ctype    string // "" = absent
 	cenc     string
 	setCL    bool
+	interim  bool // an informational 103 is relayed before the content headers are known (as the reverse proxy does)
 }
 
 func (in c17Inner) ServeHTTP(w http.ResponseWriter, r *http.Request) {
+	if in.interim {
+		w.Header().Set("Link", "</s.css>; rel=preload")
+		w.WriteHeader(http.StatusEarlyHints)
+		w.Header().Del("Link")
+	}
 	if in.ctype != "" {
 		w.Header().Set("Content-Type", in.ctype)
 	}
@@ -121,11 +127,11 @@ func c17Accepts(ae string) bool {
 
 func TestVerifC17Inputs(t *testing.T) {
 	L := ev.Begin("C17", "c17-inputs", "exploration",
-		"inner handler matrix body {empty, 1B, 512B text, 100kB text, already-gzipped} x every chunking class into <=3 writes x explicit/implicit WriteHeader x status {200,201,404,500 (+204,304 bodiless)} x Content-Type {matching, matching+charset, non-matching, absent(sniffed)} x Content-Encoding {none,gzip,br,zstd,aes128gcm} x Content-Length {absent,correct} x request Accept-Encoding {none,gzip,'gzip, deflate',br,identity,'gzip;q=0'} x Accept {*/*, text/event-stream}, served through a real http.Server; oracle: compressed only if the three conditions hold, then labelled, no stale Content-Length, gunzip == inner bytes; otherwise body and headers byte-identical; status always preserved. non-trivial = response with a body")
+		"inner handler matrix body {empty, 1B, 512B text, 100kB text, already-gzipped} x every chunking class into <=3 writes x explicit/implicit WriteHeader x status {200,201,404,500 (+204,304 bodiless)} x Content-Type {matching, matching+charset, non-matching, absent(sniffed)} x Content-Encoding {none,gzip,br,zstd,aes128gcm} x Content-Length {absent,correct} x request Accept-Encoding {none,gzip,'gzip, deflate',br,identity,'gzip;q=0' and upper-case spellings of it} x an interim 103 before the final status x Accept {*/*, text/event-stream}, served through a real http.Server; oracle: compressed only if the three conditions hold, then labelled, no stale Content-Length, gunzip == inner bytes; otherwise body and headers byte-identical; status always preserved. non-trivial = response with a body")
 	bodies := [][]byte{nil, []byte("x"), c17Text(512), c17Text(100 * 1024), c17Gz(c17Text(2000))}
 	ctypes := []string{"text/plain", "text/html; charset=utf-8", "application/json", "image/png", ""}
 	cencs := []string{"", "gzip", "br", "zstd", "aes128gcm"}
-	aes := []string{"", "gzip", "gzip, deflate", "br", "identity", "gzip;q=0", "deflate, gzip;q=0.5"}
+	aes := []string{"", "gzip", "gzip, deflate", "br", "identity", "gzip;q=0", "deflate, gzip;q=0.5", "GZIP;q=0", "identity, GZip ; q=0.000", "GZIP"}
 	accepts := []string{"*/*", "text/event-stream"}
 	type job struct {
 		in     c17Inner
@@ -156,7 +162,10 @@ func TestVerifC17Inputs(t *testing.T) {
 										if !ev.Thorough() && bi == 3 && (ae == "br" || ae == "identity" || ac != "*/*") {
 											continue
 										}
-										jobs = append(jobs, job{c17Inner{b, ch, explicit, st, ct, ce, cl}, ae, ac, "GET"})
+										jobs = append(jobs, job{c17Inner{b, ch, explicit, st, ct, ce, cl, false}, ae, ac, "GET"})
+										if explicit && bi == 2 && len(ch) == 1 && !cl {
+											jobs = append(jobs, job{c17Inner{b, ch, explicit, st, ct, ce, cl, true}, ae, ac, "GET"})
+										}
 									}
 								}
 							}
@@ -215,7 +224,7 @@ func TestVerifC17Inputs(t *testing.T) {
 				got, gotBody := do(srv.URL)
 				ref, refBody := do(plain.URL)
 				L.Case()
-				d := map[string]interface{}{"inner": fmt.Sprintf("status=%d explicit=%v ctype=%q cenc=%q cl=%v body=%d chunks=%v", j.in.status, j.in.explicit, j.in.ctype, j.in.cenc, j.in.setCL, len(j.in.body), j.in.chunks),
+				d := map[string]interface{}{"inner": fmt.Sprintf("status=%d explicit=%v ctype=%q cenc=%q cl=%v body=%d chunks=%v interim103=%v", j.in.status, j.in.explicit, j.in.ctype, j.in.cenc, j.in.setCL, len(j.in.body), j.in.chunks, j.in.interim),
 					"accept_encoding": j.ae, "accept": j.accept, "got_status": got.StatusCode, "got_headers": got.Header, "got_len": len(gotBody)}
 				if len(j.in.body) > 0 {
 					L.NontrivialKey(fmt.Sprint(i))
